@@ -2,6 +2,8 @@ package routingcheck
 
 import (
 	"bufio"
+	"io"
+	"path/filepath"
 	"context"
 	"encoding/json"
 	"errors"
@@ -36,6 +38,8 @@ type Node struct {
 	D     string     `json:"d"`
 	Rules []Addr     `json:"rules,omitempty"` // source / destination
 	Keys  []Addr     `json:"keys,omitempty"`  // source_in / destination_in (table contents)
+	Tk    string     `json:"tk,omitempty"`    // table module: static | file | regexp | regexp_repl | scripted
+	Fail  []Addr     `json:"fail,omitempty"`  // scripted table: keys whose lookup fails
 	Code  int        `json:"code,omitempty"`  // reject (0 = bare "reject")
 	Tgt   string     `json:"tgt,omitempty"`   // deliver_to
 	Map   []MapEntry `json:"map,omitempty"`   // modify { replace_rcpt static { entry k v... } }
@@ -63,13 +67,17 @@ type rowRaw struct {
 
 type builder struct {
 	sb     strings.Builder
-	tables []*tableDef
-	prefix string
+	tables  []*tableDef
+	prefix  string
+	files   []string
+	closers map[string]io.Closer // file tables (a reloader goroutine each) by instance name
 }
 
 type tableDef struct {
 	name string
+	kind string
 	keys []string
+	fail []string
 }
 
 func (b *builder) line(ind int, s string) {
@@ -105,12 +113,29 @@ func (b *builder) nodes(ind int, ns []Node) {
 			b.nodes(ind+1, n.C)
 			b.line(ind, "}")
 		case "source_in", "destination_in":
-			t := &tableDef{name: fmt.Sprintf("%stbl%d", b.prefix, len(b.tables)+1)}
+			t := &tableDef{name: fmt.Sprintf("%stbl%d", b.prefix, len(b.tables)+1), kind: n.Tk}
 			for _, k := range n.Keys {
 				t.keys = append(t.keys, Spell(k))
 			}
-			b.tables = append(b.tables, t)
-			b.line(ind, n.D+" &"+t.name+" {")
+			for _, k := range n.Fail {
+				t.fail = append(t.fail, Spell(k))
+			}
+			switch n.Tk {
+			case "regexp", "regexp_repl":
+				// the documented match-check form (docs/reference/table/regexp.md), inline
+				alts := make([]string, len(t.keys))
+				for i, k := range t.keys {
+					alts[i] = strings.ReplaceAll(k, ".", "[.]")
+				}
+				arg := `"(` + strings.Join(alts, "|") + `)"`
+				if n.Tk == "regexp_repl" {
+					arg += ` "listed"`
+				}
+				b.line(ind, n.D+" regexp "+arg+" {")
+			default:
+				b.tables = append(b.tables, t)
+				b.line(ind, n.D+" &"+t.name+" {")
+			}
 			b.nodes(ind+1, n.C)
 			b.line(ind, "}")
 		case "default_source", "default_destination", "reroute":
@@ -182,17 +207,55 @@ func registerInstances(b *builder, rec *Recorder) {
 		module.Initialized[n] = true
 	}
 	for _, t := range b.tables {
-		mod, err := table.NewStatic(t.name, t.name, nil, nil)
-		if err != nil {
-			panic(err)
-		}
-		blk := config.Node{Name: "table.static", Args: []string{t.name}}
-		for _, k := range t.keys {
-			blk.Children = append(blk.Children, config.Node{Name: "entry", Args: []string{k, "1"}})
-		}
 		delete(module.Initialized, t.name)
-		module.RegisterInstance(mod, config.NewMap(nil, blk))
+		switch t.kind {
+		case "scripted":
+			st := &ScriptTable{name: t.name, keys: map[string]bool{}, fail: map[string]bool{}}
+			for _, k := range t.keys {
+				st.keys[k] = true
+			}
+			for _, k := range t.fail {
+				st.fail[k] = true
+			}
+			module.RegisterInstance(st, nil)
+		case "file":
+			path := filepath.Join(workDir(), t.name+".aliases")
+			var sb strings.Builder
+			for _, k := range t.keys {
+				sb.WriteString(k + ": 1\n")
+			}
+			if err := os.WriteFile(path, []byte(sb.String()), 0o600); err != nil {
+				panic(err)
+			}
+			mod, err := table.NewFile(table.FileModName, t.name, nil, []string{path})
+			if err != nil {
+				panic(err)
+			}
+			b.files = append(b.files, path)
+			if b.closers == nil {
+				b.closers = map[string]io.Closer{}
+			}
+			b.closers[t.name] = mod.(io.Closer)
+			module.RegisterInstance(mod, config.NewMap(nil, config.Node{Name: "table.file", Args: []string{t.name}}))
+		default:
+			mod, err := table.NewStatic(t.name, t.name, nil, nil)
+			if err != nil {
+				panic(err)
+			}
+			blk := config.Node{Name: "table.static", Args: []string{t.name}}
+			for _, k := range t.keys {
+				blk.Children = append(blk.Children, config.Node{Name: "entry", Args: []string{k, "1"}})
+			}
+			module.RegisterInstance(mod, config.NewMap(nil, blk))
+		}
 	}
+}
+
+func workDir() string {
+	if d := os.Getenv("VERIF_TMP"); d != "" {
+		return d
+	}
+	return os.TempDir()
 }
 
 func loadRow(text string) (p *msgpipeline.MsgPipeline, errText string) {
@@ -307,6 +370,14 @@ func runRow(row Row, raw rowRaw, w *bufio.Writer) {
 		for k, e := range row.Envs {
 			res = append(res, runEnv(p, rec, row.ID, k, e))
 		}
+	}
+	for name, c := range b.closers {
+		if module.Initialized[name] { // Init started the reloader; Close blocks otherwise
+			c.Close()
+		}
+	}
+	for _, f := range b.files {
+		os.Remove(f)
 	}
 	tr.Emit("Row", vtrace.Ev{
 		"in":   raw,
